@@ -550,7 +550,13 @@ class EligibilityMonitor(Monitor):
             foreign = [f for f in tr.forced if f['sender'] != inst.nick and f['t'] >= w.now - 2 * TICK and
                        any(r['namespec'] == f['namespec'] and self.node_of[r['target']] == node
                            for r in tr.outstanding(inst.nick, inst.inc))]
-            if loads.get(node, 0) + own + load <= 100:
+            stale = [r for r in tr.outstanding(inst.nick, inst.inc) if self.node_of[r['target']] == node
+                     and tr.judged_on_older_event(r, (0, 40, 100, 200, 1000))]
+            if stale:
+                # the requester has dropped a request of its own (and its load) on an event of an earlier cycle of
+                # that process, before the request was delivered: the request is served later all the same
+                key = 'C04/node-overload:own-request-judged-on-an-event-older-than-its-delivery'
+            elif loads.get(node, 0) + own + load <= 100:
                 key = 'C04/node-overload:pending-of-other-application'
             elif foreign:
                 # the requester dropped its own in-flight commands when ANOTHER instance starting the same
